@@ -5,6 +5,7 @@ known deviations — so `C05_leaf` / `C04_leaf` apply to every other arm — and
 as the leaf theorems need it.
 -/
 import Ggql.Props.C04
+import Ggql.Props.C05Data
 import Ggql.Gen.Coerce
 namespace Ggql.Coerce
 
@@ -49,6 +50,44 @@ theorem C05_tables :
     allScalars.all (fun s =>
       (unsoundOut s (outTable s)).all (fun p => (pinnedOut s).contains p) &&
       ((outTable s).dflt == .failNil) && ((outTable s).formatTime == (s == .time))) = true := by decide
+
+/-- What is still unsound at the response level now that the leaf branch of `resolve` drops the value
+on a `CoerceOut` error (D15 repaired): D16 (unchecked narrowing, including Int ← numeric string beyond
+32 bits and Float ← "Inf"/"NaN" strings) and D48. -/
+def pinnedOutR : Scalar → List (Kind × Action)
+  | .int => [(.f32, .conv .i32), (.f64, .conv .i32), (.i64, .conv .i32), (.int, .conv .i32),
+             (.str, .parseIntKeep .i32), (.u32, .conv .i32), (.u64, .conv .i32), (.uint, .conv .i32)]
+  | .int64 => [(.f32, .conv .i64), (.f64, .conv .i64), (.u64, .conv .i64), (.uint, .conv .i64)]
+  | .float => [(.f32, .asIs), (.f64, .conv .f32), (.str, .parseFloatKeep .f32)]
+  | .float64 => [(.f32, .conv .f64), (.f64, .asIs), (.str, .parseFloatKeep .f64)]
+  | .string => [(.u64, .fmtInt), (.uint, .fmtInt)]
+  | .id => [(.u64, .fmtInt), (.uint, .fmtInt)]
+  | .boolean => []
+  | .time => []
+
+/-- **C05_tables_resp.**  With the leaf branch as read from `resolve` on this run, every arm that is
+unsound at the response level is a pinned deviation. -/
+theorem C05_tables_resp :
+    allScalars.all (fun s =>
+      (unsoundOutR Gen.leafErrNulls s (outTable s)).all (fun p => (pinnedOutR s).contains p)) = true := by decide
+
+theorem outTable_formatTime (s : Scalar) : (outTable s).formatTime = (s == .time) := by
+  cases s <;> decide
+
+/-- **C05_current.**  `C05_data` on the tables and the leaf branch generated from the source on this
+run: for every declared type, every resolver value satisfying `dataSound` (no pinned-deviation arm, no
+undeclared enum name, no fast-path slice) and every behaviour of the runtime's floats and times, the
+response value is well-typed. -/
+theorem C05_current {F : Type} (ext : Ext F) (laws : ExtLaws ext) (t : TRef) (d : Data F)
+    (hs : dataSound outTable Gen.leafErrNulls t d = true) :
+    wellTyped ext t (resolveData ext outTable Gen.leafErrNulls t d).1 = true :=
+  C05_data ext laws outTable Gen.leafErrNulls outTable_formatTime t d hs
+
+/-- non-vacuity: a list of Boolean strings, one of which does not parse, and an Int64 string are
+`dataSound` on the current source -/
+example : dataSound (F := Nat) outTable Gen.leafErrNulls (.list (.scalar .boolean))
+    (.list [.leaf (.str "true"), .leaf (.str "nope"), .leaf .nil]) = true ∧
+    dataSound (F := Nat) outTable Gen.leafErrNulls (.nonNull (.scalar .int64)) (.leaf (.str "x12")) = true := by decide
 
 /-- **C04_tables.**  The same for `CoerceIn`. -/
 theorem C04_tables :
